@@ -105,17 +105,6 @@ Proof.
 Qed.
 
 (* ---- checkers for closed examples ---- *)
-Fixpoint nodupb (l : list N) : bool :=
-  match l with [] => true | x :: r => negb (existsb (N.eqb x) r) && nodupb r end.
-
-Lemma nodupb_sound l : nodupb l = true -> NoDup l.
-Proof.
-  induction l as [|x r IH]; cbn [nodupb]; intros H; constructor; apply andb_true_iff in H; destruct H as [H1 H2].
-  - intros HI. apply negb_true_iff in H1. assert (existsb (N.eqb x) r = true); [|congruence].
-    apply existsb_exists. exists x. split; [exact HI|apply N.eqb_refl].
-  - apply IH, H2.
-Qed.
-
 Section Checker.
   Context {V : Type} (R : V -> V -> Prop) (rb : V -> V -> bool).
   Hypothesis rb_sound : forall x y, rb x y = true -> R x y.
